@@ -665,6 +665,11 @@ func verifBodyHistory(s *verifEngC, gc *check.C) {
 				if len(cfg) != 0 {
 					c.Violate("C11/removed-snap-config-left", "snap is removed but configuration %v remains", cfg)
 				}
+				var revcfg map[string]map[string]interface{}
+				st.Get("revision-config", &revcfg)
+				if len(revcfg[verifSnapName]) != 0 {
+					c.Violate("C11/removed-snap-config-left", "snap is removed but its per-revision configuration snapshots remain: %v", revcfg[verifSnapName])
+				}
 				if kind == "remove" {
 					c.Count("probe:snap-removed")
 				}
